@@ -21,16 +21,16 @@ let parse_bank (t : toks) : M.bank =
     b_op_state = ops; b_ir = ir }
 
 let dump_bank (b : M.bank) : string =
-  String.concat " " [zs b.M.b_asv; zs b.M.b_lsv; zs b.M.b_tas; zs b.M.b_tls; zs b.M.b_ins; zs b.M.b_grp;
+  Stdlib.String.concat " " [zs b.M.b_asv; zs b.M.b_lsv; zs b.M.b_tas; zs b.M.b_tls; zs b.M.b_ins; zs b.M.b_grp;
                      zs b.M.b_prog; zs b.M.b_last_update; zs b.M.b_em_rem; zs b.M.b_lend_cnt; zs b.M.b_bor_cnt]
 
 let dump_la (la : M.balance list) : string =
   let parts = Stdlib.List.filter_map (fun x -> x)
     (Stdlib.List.mapi (fun i (bl : M.balance) ->
        if bl.M.bl_active then
-         Some (String.concat ":" [string_of_int i; zs bl.M.bl_bank; zs bl.M.bl_tag; zs bl.M.bl_a; zs bl.M.bl_l; zs bl.M.bl_em; zs bl.M.bl_last])
+         Some (Stdlib.String.concat ":" [string_of_int i; zs bl.M.bl_bank; zs bl.M.bl_tag; zs bl.M.bl_a; zs bl.M.bl_l; zs bl.M.bl_em; zs bl.M.bl_last])
        else None) la) in
-  if parts = [] then "-" else String.concat "," parts
+  if parts = [] then "-" else Stdlib.String.concat "," parts
 
 let rec nat_to_int (n : M.nat) : int = match n with M.O -> 0 | M.S k -> 1 + nat_to_int k
 
@@ -71,6 +71,6 @@ let suite_bankops (line : string) : string =
     let ad = match ai with Some a -> dump_la (Stdlib.List.nth !w.M.bw_accts (nat_to_int a)) | None -> "-" in
     out := (res ^ " # " ^ bd ^ " # " ^ ad) :: !out
   done;
-  String.concat " | " (Stdlib.List.rev !out)
+  Stdlib.String.concat " | " (Stdlib.List.rev !out)
 
 let () = register "bankops" suite_bankops
